@@ -348,7 +348,7 @@ theorem C02_value_roundtrip (c : Ctx) (s : Str) (q : Bool) (out : Str) (c' : Ctx
       nextToken (Lemmas.WriterLex.diaOf c) ⟨renderWs w0 ++ (out ++ ctx), line, col, lt⟩ pol log
         = .ok (⟨p.tokType, s', L, C⟩, ⟨ctx, L, C, p.tokType⟩) log
       ∧ (p ≠ .text → s' = s) ∧ (p = .text → decodeText true true s' = s)
-      ∧ (p = .bare → q = false ∧ s.head? ≠ some 59) := by
+      ∧ (p = .bare → q = false ∧ s.head? ≠ some 59 ∧ Model.recommend s (!q) (!c.isCif1) LINE = .none) := by
   obtain ⟨wrap, p, s', hout, hadm, htext, hfits, hs1, hs2, hbare⟩ := C02_value_presented c s q out c' hok hcol h
   -- the optional line break is one more whitespace atom
   let wl : List WsAtom := if wrap then [WsAtom.eol] else []
@@ -381,7 +381,7 @@ theorem C02_value_roundtrip (c : Ctx) (s : Str) (q : Bool) (out : Str) (c' : Ctx
     | bare =>
       have e := hs1 (by intro e; cases e)
       subst e
-      have := (hbare rfl).2
+      have := (hbare rfl).2.1
       simp only [startOk, semiOk, Bool.not_eq_true', Bool.and_eq_false_iff, beq_eq_false_iff_ne, ne_eq]
       left; exact this
     | squote => rfl
